@@ -1695,7 +1695,7 @@ class _Date(Vector):
 			if other.schema().kind == str:
 				return Vector(tuple(False if (x is None or y is None) else bool(op(x, date.fromisoformat(y))) for x, y in zip(self, other, strict=True)), dtype=DataType(bool))
 			if other.schema().kind == datetime:
-				return Vector(tuple(False if (x is None or y is None) else bool(op(datetime.combine(x, datetime.time(0, 0)), y)) for x, y in zip(self, other, strict=True)), dtype=DataType(bool))
+				return Vector(tuple(False if (x is None or y is None) else bool(op(datetime.combine(x, datetime.min.time()), y)) for x, y in zip(self, other, strict=True)), dtype=DataType(bool))
 		elif isinstance(other, Iterable) and not isinstance(other, (str, bytes, bytearray)):
 			# Raise mismatched lengths
 			if len(self) != len(other):
@@ -1705,7 +1705,7 @@ class _Date(Vector):
 		elif isinstance(other, str):
 			return Vector(tuple(False if x is None else bool(op(x, date.fromisoformat(other))) for x in self), dtype=DataType(bool))
 		elif isinstance(other, datetime):
-			return Vector(tuple(False if x is None else bool(op(datetime.combine(x, datetime.time(0, 0)), other)) for x in self), dtype=DataType(bool))
+			return Vector(tuple(False if x is None else bool(op(datetime.combine(x, datetime.min.time()), other)) for x in self), dtype=DataType(bool))
 		# finally, 
 		return super()._elementwise_compare(other, op)
 
